@@ -1048,6 +1048,7 @@ def run_symbolic(h, tier="quick", stubs=None):
 
 
 LAST_REAL_ERRORS = []
+NATIVE_TZ = "CET-1CEST,M3.5.0,M10.5.0/3"
 
 
 def run_concrete(h, values=None, seed=0, n=1):
@@ -1055,6 +1056,11 @@ def run_concrete(h, values=None, seed=0, n=1):
     rng = random.Random(seed)
     ran, fails, errors = 0, [], []
     del LAST_REAL_ERRORS[:]
+    # scenario instants are naive UTC datetimes: nothing may depend on the host's time zone.  Native runs therefore execute under a zone WITH
+    # daylight-saving switches (the sandbox default is UTC, where local-time arithmetic is accidentally right)
+    if os.environ.get("TZ") != NATIVE_TZ:
+        os.environ["TZ"] = NATIVE_TZ
+        time.tzset()
     for i in range(n):
         vc = ConcVC(h, values if i == 0 else None, rng) if values is not None else ConcVC(h, None, rng)
         try:
@@ -1064,13 +1070,18 @@ def run_concrete(h, values=None, seed=0, n=1):
         except Rejected:
             continue
         except Exception as e:  # real code raised outside what the contract allows
-            errors.append((repr(e), dict(vc.inputs)))
             tb = e.__traceback__
             while tb is not None and tb.tb_next is not None:
                 tb = tb.tb_next
             fn = tb.tb_frame.f_code.co_filename if tb is not None else ""
-            if "/resonaate/" in fn and "/contracts/" not in fn and "/pyvc/" not in fn and not isinstance(e, AssertionError):
+            real = "/resonaate/" in fn and "/contracts/" not in fn and "/pyvc/" not in fn and not isinstance(e, AssertionError)
+            if real:
                 LAST_REAL_ERRORS.append((repr(e), dict(vc.inputs)))  # raised BY the real code (innermost frame in the package): a concrete input for a refuted '.noraise'
+            if real and h.opts.get("native_only"):
+                # bounded stand-in: the real code raised on a sampled input of the stated domain - that input fails '<harness>.noraise'
+                fails.append((f"{h.name}.noraise", dict(vc.inputs, **{"raised": repr(e)[:300]})))
+            else:
+                errors.append((repr(e), dict(vc.inputs)))
             continue
         finally:
             vc._uninstall()
